@@ -665,7 +665,7 @@ func rejectGuards(fn *ssa.Function) []guard {
 				}
 				fields = uniq
 			}
-			if len(fields) == 0 && strings.HasPrefix(dec, "phi ") && strings.HasSuffix(dec, " const") {
+			if len(fields) == 0 && strings.HasPrefix(dec, "phi ") {
 				continue // a loop counter compared with a constant bound: not a decision about any input
 			}
 			if strings.HasPrefix(dec, "round.Helper.BroadcastMessage") || strings.HasPrefix(dec, "round.Helper.SendMessage") {
@@ -774,6 +774,37 @@ func guardCoversAccepts(g guard) bool {
 	if g.iff == nil {
 		return true
 	}
+	for _, r := range acceptReturns(g.fn) {
+		if !guardCoversReturn(g, r) {
+			return false
+		}
+	}
+	return true
+}
+
+// guardsJointlyCover: every accepting return is covered by one of the guards (the same check made on each of two
+// branches that each end in their own accepting return).
+func guardsJointlyCover(gs []guard) bool {
+	if len(gs) == 0 {
+		return false
+	}
+	for _, r := range acceptReturns(gs[0].fn) {
+		ok := false
+		for _, g := range gs {
+			if !g.notCovering && (g.iff == nil || guardCoversReturn(g, r)) {
+				ok = true
+			}
+		}
+		if !ok {
+			return false
+		}
+	}
+	return true
+}
+
+// guardCoversReturn: the guard's branch dominates the accepting return r (through its passing edge), or sits in a loop
+// whose header dominates it (per-element checks).
+func guardCoversReturn(g guard, r *ssa.Return) bool {
 	b := g.iff.Block()
 	// a per-element check inside a loop: an accepting return inside that loop (reachable without going back through
 	// the loop header) stops the walk early and leaves the remaining elements unchecked
@@ -785,48 +816,41 @@ func guardCoversAccepts(g guard) bool {
 			}
 		}
 	}
-	for _, r := range acceptReturns(g.fn) {
-		if header != nil && header.Dominates(r.Block()) && reachesAvoiding(b, r.Block(), header) {
+	if header != nil && header.Dominates(r.Block()) && reachesAvoiding(b, r.Block(), header) {
+		return false
+	}
+	if r.Block() == b {
+		return true
+	}
+	if b.Dominates(r.Block()) {
+		// the accepting return must be reached through the passing edge
+		if g.passBlk != nil && !blockReaches(g.passBlk, r.Block()) {
 			return false
 		}
-		if r.Block() == b {
-			continue
-		}
-		if b.Dominates(r.Block()) {
-			// the accepting return must be reached through the passing edge
-			if g.passBlk != nil && !blockReaches(g.passBlk, r.Block()) {
-				return false
-			}
-			continue
-		}
-		// loop case
-		inLoop := false
-		for _, s := range b.Succs {
-			if blockReaches(s, b) {
-				inLoop = true
-			}
-		}
-		if !inLoop {
-			return false
-		}
-		// find a dominator of b that is a loop header dominating r
-		ok := false
-		for d := b.Idom(); d != nil; d = d.Idom() {
-			if d.Dominates(r.Block()) && blockReaches(b, d) {
-				// the accepting return must lie after the loop: an accept reachable from inside the body without
-				// going back through the header ends the walk early and leaves the remaining elements unchecked
-				if reachesAvoiding(b, r.Block(), d) {
-					return false
-				}
-				ok = true
-				break
-			}
-		}
-		if !ok {
-			return false
+		return true
+	}
+	// loop case
+	inLoop := false
+	for _, s := range b.Succs {
+		if blockReaches(s, b) {
+			inLoop = true
 		}
 	}
-	return true
+	if !inLoop {
+		return false
+	}
+	// find a dominator of b that is a loop header dominating r
+	for d := b.Idom(); d != nil; d = d.Idom() {
+		if d.Dominates(r.Block()) && blockReaches(b, d) {
+			// the accepting return must lie after the loop: an accept reachable from inside the body without
+			// going back through the header ends the walk early and leaves the remaining elements unchecked
+			if reachesAvoiding(b, r.Block(), d) {
+				return false
+			}
+			return true
+		}
+	}
+	return false
 }
 
 // paramLabel names a parameter independently of its source name: "recv" for the receiver, the
@@ -1244,6 +1268,13 @@ func expandHelperCall(fn *ssa.Function, call *ssa.Call, idx int) ([]string, bool
 	cal := call.Call.StaticCallee()
 	if call.Call.IsInvoke() || !isLocalHelper(fn, cal) || helperDepth >= 2 || call == noExpandCall {
 		return nil, false
+	}
+	// a helper that is handed the transcript hash: what it returns flows through the hash state (written with some of its
+	// arguments, read back as a digest), which labels do not follow - it stays opaque and is labelled by all its arguments
+	for _, p := range cal.Params {
+		if isTranscriptHash(p.Type()) {
+			return nil, false
+		}
 	}
 	helperDepth++
 	defer func() { helperDepth-- }()
@@ -1721,4 +1752,10 @@ func intBoundary(x *ssa.BinOp) (string, ssa.Value, bool) {
 		return fmt.Sprintf("cmp %d|%d", v, v+1), side, true
 	}
 	return "", nil, false
+}
+
+// isTranscriptHash: *hash.Hash of the module.
+func isTranscriptHash(t types.Type) bool {
+	n := namedOf(t)
+	return n != nil && n.Obj().Name() == "Hash" && n.Obj().Pkg() != nil && strings.HasSuffix(n.Obj().Pkg().Path(), "/pkg/hash")
 }
